@@ -72,9 +72,9 @@ InitFor(role) ==
 (* ------------------------------ environment ------------------------------ *)
 SumLen(fs) == IF fs = <<>> THEN 0 ELSE LET S[i \in 0..Len(fs)] == IF i = 0 THEN 0 ELSE S[i-1] + fs[i].len IN S[Len(fs)]
 
-PeerSend(frames) ==
+PeerSend(frames, n) ==     \* n = bytes really written (less than SumLen(frames) when the last PDU is truncated)
   /\ ~peerFin
-  /\ stream' = stream \o frames /\ transit' = transit + SumLen(frames)
+  /\ stream' = stream \o frames /\ transit' = transit + n
   /\ out' = NoOut
   /\ UNCHANGED <<isReq, st, sock, rx, raw, peerFin, nid, evq, slot, uq, gen, artim, dec, user, ended>>
 
@@ -126,11 +126,12 @@ SrcReady(src, r, eof) ==
     [] src = "none"  -> TRUE
     [] OTHER -> FALSE
 
-Iterate(rcv, src, wireF, indF, asInvalid, dimseFail) ==
+Iterate(rcv, src, wireF, indF, asInvalid, dimseFail, msgInd) ==
   (* rcv: TRUE = the socket is read in this iteration.  wireF/indF: concrete values taken by    *)
   (* fields the standard leaves free (bound from the trace when validating, canonical in MC).   *)
   (* asInvalid: a grey frame is taken as Evt19.  dimseFail: a grey P-DATA fails inside          *)
-  (* DT-2/AR-6 and the reaction is AA-8's.                                                      *)
+  (* DT-2/AR-6 and the reaction is AA-8's.  msgInd: what was indicated by DT-2/AR-6 when the    *)
+  (* reassembly state is unknown (after a grey P-DATA was taken as valid): nothing or a message. *)
   LET doRcv == rcv /\ Readable /\ st # 4
       n     == IF doRcv THEN rx ELSE 0
       eof   == doRcv /\ rx = 0
@@ -195,6 +196,7 @@ Iterate(rcv, src, wireF, indF, asInvalid, dimseFail) ==
                  i == CASE a \in {"AE3", "AE4", "AE6", "AA3"} -> <<[k |-> IndOf(a), f |-> p.f]>>
                         [] a \in {"AR2", "AR8", "AR3", "AR10"} -> <<[k |-> IndOf(a), f |-> <<>>]>>
                         [] a \in {"AA4", "AA8"} -> <<[k |-> "AB", f |-> indF]>>
+                        [] a \in {"DT2", "AR6"} /\ (dec.unk \/ p.grey) -> msgInd
                         [] a \in {"DT2", "AR6"} /\ dr[2] -> <<[k |-> "MSG", f |-> <<dr[3]>>]>>
                         [] OTHER -> <<>>
              IN
@@ -203,7 +205,7 @@ Iterate(rcv, src, wireF, indF, asInvalid, dimseFail) ==
              /\ sock' = IF Closes(a) THEN "none" ELSE IF Opens(a) THEN "open" ELSE sockP
              /\ artim' = CASE TimerOf(a) \in {"start", "restart"} -> "run"
                            [] TimerOf(a) = "stop" -> "off" [] OTHER -> artim
-             /\ dec' = IF a \in {"DT2", "AR6"} THEN (IF p.grey THEN [Fresh EXCEPT !.unk = TRUE] ELSE dr[1]) ELSE dec
+             /\ dec' = IF a \in {"DT2", "AR6"} THEN (IF p.grey \/ dec.unk THEN [Fresh EXCEPT !.unk = TRUE] ELSE dr[1]) ELSE dec
              /\ user' = CASE a \in {"AE6", "AE3"} -> "assoc"
                           [] a = "AE1" -> "assoc"      \* the requesting user awaits the outcome
                           [] a \in {"AE4", "AR3", "AA3", "AA4", "AA8"} -> "over"
